@@ -238,6 +238,23 @@ def install_events():
     wrap(PriceLimitRule, "setup", rs_pre, rs_post)
     wrap(TradingHaltRule, "setup", rs_pre, rs_post)
 
+    # registration: an enabled event registers its hooks whatever the values of its other parameters; a disabled one registers none
+    def hr_pre(ev):
+        return None
+
+    def mk_hr_post(F, expect):
+        def hr_post(ev, c, res):
+            hooks = list(res)
+            want = expect(ev) if ev.is_enabled else []
+            got = sorted((h.hook_type, h.is_before, None if h.time is None else tuple(h.time)) for h in hooks)
+            if got != sorted(want) or any(h.event is not ev for h in hooks):
+                raise ContractViolation(F, "an enabled event registers exactly its documented hooks (a disabled one none), owned by itself", dict(enabled=ev.is_enabled, got=got, expected=sorted(want)))
+        return hr_post
+    wrap(PriceLimitRule, "hook_registration", hr_pre, mk_hr_post("PriceLimitRule.hook_registration", lambda ev: [("order", True, None)]))
+    wrap(OrderMistakeShock, "hook_registration", hr_pre, mk_hr_post("OrderMistakeShock.hook_registration", lambda ev: [("order", True, (ev.trigger_time,))]))
+    wrap(FundamentalPriceShock, "hook_registration", hr_pre,
+         mk_hr_post("FundamentalPriceShock.hook_registration", lambda ev: [("market", True, tuple(ev.trigger_time + i for i in range(ev.shock_time_length)))]))
+
     # ghost: the configured execution flag of each session
     from pams.session import Session
 
